@@ -23,13 +23,14 @@ Definition quick_pred (o1 o2 o3 o4 o5 o6 o7 : outcome Z) : bool :=
   | _, _, _, _, _, _, _ => false
   end.
 
-Definition quick_ok (p : mul_params) : bool :=
-  quick_pred (bank_cost p 256 256) (bank_cost p 512 512) (bank_cost p 1024 1024)
-             (bank_cost p 256 511) (bank_cost p 256 512) (bank_cost p 512 1023) (bank_cost p 512 1024).
-
-(* [vm_cast_no_check]: the VM runs once, when the kernel checks the proof term at Qed
+(* The statement is syntactically the one [quick_pred_inv] consumes, so that no conversion
+   problem (which the kernel might attack by lazily evaluating a product) ever arises.
+   [vm_cast_no_check]: the VM runs once, when the kernel checks the proof term at Qed
    (with [vm_compute; reflexivity] it would run twice). *)
-Lemma quick_ok_true : quick_ok mul = true.
+Lemma quick_ok_true :
+  quick_pred (bank_cost mul 256 256) (bank_cost mul 512 512) (bank_cost mul 1024 1024)
+             (bank_cost mul 256 511) (bank_cost mul 256 512) (bank_cost mul 512 1023)
+             (bank_cost mul 512 1024) = true.
 Proof. vm_cast_no_check (@eq_refl bool true). Qed.
 
 Lemma le_325_spec c1 c2 : le_325 c1 c2 = true -> 4 * c2 <= 13 * c1.
